@@ -15,6 +15,7 @@ THEOREMS = [
     "PV.WiringCalls.C13_fdd_run_calls",
     "PV.WiringCalls.C04_ms_run_calls",
     "PV.WiringCalls.C06_mpe_calls",
+    "PV.WiringMpe.C06_mpe_stores_exact",
     "PV.C06.C06_band_limits",
     "PV.C06.pickIdx_spec",
     "PV.C06.C06_pick",
